@@ -25,6 +25,8 @@ func checkC08(c *Ctx) {
 	c.R.NotCover = append(c.R.NotCover, "'last one per topic' and payload identity across histories", "the matching relation used for the retained lookup (C06)", "interleaving of a retained update with a concurrent new subscription beyond immutability of what was handed out")
 	c.useRules(ruleP8, ruleP5, ruleP9, ruleG6)
 	c.useRules(ruleP6)
+	// a delivery at QoS 1/2 is registered before it counts as sent: the registration refuses nothing that needs an acknowledgement
+	c.waitAcceptsRequests()
 	c.retainedInsertStores()
 	c.retainedIsDeepCopy()
 	c.endOfLevelsSignal()
